@@ -159,6 +159,16 @@ static int get_leaves(const char *s, uint64_t *v, int n) {
     return 0;
 }
 
+/* leaf transfer between the uint64 leaf vector and C storage.  Default: low bytes as the (little-endian) host lays
+   them out.  -DDRV_BE_STORAGE: most-significant byte first, i.e. the storage image a big-endian host would hold. */
+#ifdef DRV_BE_STORAGE
+static void leaf_set(void *dst, size_t n, uint64_t v) { unsigned char *p = (unsigned char *)dst; for (size_t k = 0; k < n; k++) p[n - 1 - k] = (unsigned char)(v >> (8 * k)); }
+static uint64_t leaf_get(const void *src, size_t n) { const unsigned char *p = (const unsigned char *)src; uint64_t v = 0; for (size_t k = 0; k < n; k++) v |= (uint64_t)p[n - 1 - k] << (8 * k); return v; }
+#else
+static void leaf_set(void *dst, size_t n, uint64_t v) { memcpy(dst, &v, n); }
+static uint64_t leaf_get(const void *src, size_t n) { uint64_t v = 0; memcpy(&v, src, n); return v; }
+#endif
+
 struct msg_entry {
     const char *name; int nleaves; long nbytes; size_t size;
     void (*set)(void *, const uint64_t **);
@@ -284,11 +294,11 @@ class DriverGen:
             for f in m.sorted_fields:
                 body_set += self._walk(
                     f.type, f"m->{f.name}", 0,
-                    lambda e: f"memcpy(&({e}), (*pv)++, sizeof({e}));",
+                    lambda e: f"leaf_set(&({e}), sizeof({e}), *(*pv)++);",
                     lambda mm, e: f"set_{c_type_name(mm)}(&({e}), pv);")
                 body_get += self._walk(
                     f.type, f"m->{f.name}", 0,
-                    lambda e: f"{{ uint64_t t = 0; memcpy(&t, &({e}), sizeof({e})); *(*pv)++ = t; }}",
+                    lambda e: f"*(*pv)++ = leaf_get(&({e}), sizeof({e}));",
                     lambda mm, e: f"get_{c_type_name(mm)}(&({e}), pv);")
             out.append(f"static void set_{sn}(void *p, const uint64_t **pv) {{ struct {sn} *m = (struct {sn} *)p; (void)m; (void)pv;")
             out += ["    " + s for s in body_set] + ["}"]
@@ -332,9 +342,13 @@ CONFIGS: Dict[str, Dict[str, Any]] = {
     "clang-Os-single": dict(cc="clang", flags=["-Os"], single=True),
     "gcc-asan-ubsan": dict(cc="gcc", flags=["-O1"] + SAN, single=False, asan=True),
     "clang-asan-ubsan": dict(cc="clang", flags=["-O1"] + SAN, single=False, asan=True),
-    "gcc-O0-BE": dict(cc="gcc", flags=["-O0", "-DBP_BIG_ENDIAN"], single=False),
-    "gcc-O2-BE": dict(cc="gcc", flags=["-O2", "-DBP_BIG_ENDIAN"], single=True),
-    "gcc-asan-BE": dict(cc="gcc", flags=["-O1", "-DBP_BIG_ENDIAN"] + SAN, single=False, asan=True),
+    # runtime built for a big-endian host, operating on storage laid out big-endian by the driver
+    "gcc-O0-BE": dict(cc="gcc", flags=["-O0", "-DBP_BIG_ENDIAN", "-DDRV_BE_STORAGE"], single=False),
+    "gcc-O2-BE": dict(cc="gcc", flags=["-O2", "-DBP_BIG_ENDIAN", "-DDRV_BE_STORAGE"], single=True),
+    "clang-O2-BE": dict(cc="clang", flags=["-O2", "-DBP_BIG_ENDIAN", "-DDRV_BE_STORAGE"], single=False),
+    "gcc-asan-BE": dict(cc="gcc", flags=["-O1", "-DBP_BIG_ENDIAN", "-DDRV_BE_STORAGE"] + SAN, single=False, asan=True),
+    # positive control for the big-endian monitor: big-endian storage fed to the little-endian build must FAIL
+    "gcc-O0-LE-on-BE-storage": dict(cc="gcc", flags=["-O0", "-DDRV_BE_STORAGE"], single=False),
 }
 
 WARN = ["-std=gnu99", "-w"]
@@ -454,3 +468,49 @@ def leaves_from_reply(m: Message, hexs: str) -> List[int]:
     raws = parse_leaves(hexs)
     items = ref.leaves(m)
     return [storage_value(it.etype, r) for it, r in zip(items, raws)]
+
+
+# ----------------------------------------------------------------------------
+# direct calls into the runtime's bit copier
+# ----------------------------------------------------------------------------
+RT_DRIVER = DRIVER_PRELUDE + r"""
+#include "bitproto.h"
+int main(void) {
+    PG = sysconf(_SC_PAGESIZE);
+#ifndef DRV_ASAN
+    struct sigaction sa; memset(&sa, 0, sizeof sa); sa.sa_sigaction = on_fault; sa.sa_flags = SA_SIGINFO;
+    sigaction(SIGSEGV, &sa, NULL); sigaction(SIGBUS, &sa, NULL);
+#endif
+    char *line = NULL; size_t cap = 0;
+    while (getline(&line, &cap, stdin) > 0) {
+        if (line[0] == 'Q') break;
+        /* C n di si low dsthex srchex : BpCopyBufferBits on exact-fit buffers */
+        int n, di, si, low; char dh[4096], sh[4096];
+        if (sscanf(line, "C %d %d %d %d %4095s %4095s", &n, &di, &si, &low, dh, sh) != 6) { printf("ERR parse\n"); fflush(stdout); continue; }
+        unsigned char tmp[2048];
+        size_t dn = unhex(dh, tmp); struct blk db = blk_alloc(dn, low); memcpy(db.p, tmp, dn);
+        size_t sn = unhex(sh, tmp); struct blk sb = blk_alloc(sn, low); memcpy(sb.p, tmp, sn);
+        cur_op = "BpCopyBufferBits"; cur_idx = n;
+        BpCopyBufferBits(n, db.p, sb.p, di, si);
+        cur_op = "?";
+        int c1 = blk_check(&db), c2 = blk_check(&sb);
+        if (c1 || c2) printf("CANARY dst=%d src=%d ", c1, c2); else printf("OK ");
+        puthex(db.p, dn); printf(" "); puthex(sb.p, sn); printf("\n"); fflush(stdout);
+        blk_free(&db); blk_free(&sb);
+    }
+    return 0;
+}
+"""
+
+
+def build_rt_driver(directory: str, config: str) -> str:
+    cfg = CONFIGS[config]
+    src = os.path.join(directory, "rtdrv.c")
+    with open(src, "w") as fh:
+        fh.write(RT_DRIVER)
+    exe = os.path.join(directory, f"rtdrv-{config}")
+    cmd = [cfg["cc"]] + list(cfg["flags"]) + WARN + ["-I", env.CLIB_DIR, os.path.join(env.CLIB_DIR, "bitproto.c"), src, "-o", exe]
+    p = subprocess.run(cmd, capture_output=True, text=True, timeout=300)
+    if p.returncode != 0:
+        raise BuildError(f"rtdrv {config}: exit {p.returncode}", (p.stdout + p.stderr)[-3000:])
+    return exe
